@@ -30,69 +30,109 @@ func runC18(c *sim.Ctx, t *testing.T) {
 		return
 	}
 	ctx := context.Background()
-	start := genState(c, gs, cfg)
-	if start.Bs == nil {
-		start.Bs = map[string]interface{}{}
+	// several machines share the compiled spec; they carry different sets of
+	// permanent bindings (the first one none at the start)
+	type machine struct {
+		start ref.State
+		st    *core.State
+		perm  map[string]string
 	}
-	// make sure permanent bindings are there to be conserved
-	start.Bs["k!"] = genValue(c, 0)
-	if c.Bool("second") {
-		start.Bs["p!"] = genConst(c)
+	nmach := 1 + c.Intn(3, "nmachines")
+	var machines []*machine
+	for k := 0; k < nmach; k++ {
+		start := genState(c, gs, cfg)
+		if start.Bs == nil {
+			start.Bs = map[string]interface{}{}
+		}
+		if k == 0 && nmach > 1 {
+			delete(start.Bs, "k!")
+			delete(start.Bs, "p!")
+		} else {
+			start.Bs["k!"] = genValue(c, 0)
+			if c.Bool("second") {
+				start.Bs["p!"] = genConst(c)
+			}
+		}
+		m := &machine{start: start, st: toState(start), perm: map[string]string{}}
+		for key, v := range start.Bs {
+			if strings.HasSuffix(key, "!") {
+				m.perm[key] = ref.Canon(v)
+			}
+		}
+		machines = append(machines, m)
 	}
+	start := machines[len(machines)-1].start
 	hist := genHistory(c, 6)
-	st := toState(start)
 	shape := ""
 	checked := 0
 	for _, m := range hist {
-		var w *core.Walked
-		if c.Guard("Walk", func() { w, _ = spec.Walk(ctx, st, []interface{}{m}, &core.Control{Limit: 12}, nil) }) {
-			return
-		}
-		if w == nil {
-			continue
-		}
-		for i, s := range w.Strides {
-			if s.From == nil || s.To == nil {
+		for _, mc := range machines {
+			st, perm := mc.st, mc.perm
+			var w *core.Walked
+			if c.Guard("Walk", func() { w, _ = spec.Walk(ctx, st, []interface{}{m}, &core.Control{Limit: 12}, nil) }) {
+				return
+			}
+			if w == nil {
 				continue
 			}
-			r := gs.Step(fromCoreState(s.From), func() interface{} {
-				if s.Consumed != nil {
-					return m
-				}
-				return nil
-			}())
-			if r.Kind == ref.Unspecified && r.Class == "action-returned-null" {
-				c.Count("skipped_null_return")
-				continue
-			}
-			if r.ActionFailed {
-				c.Count("after_failed_action")
-			}
-			if r.ActionCompleted {
-				c.Count("after_completed_action")
-			}
-			checked++
-			for k, v := range s.From.Bs {
-				if !strings.HasSuffix(k, "!") {
+			for i, s := range w.Strides {
+				if s.From == nil || s.To == nil {
 					continue
 				}
-				got, have := s.To.Bs[k]
-				if !have || ref.Canon(got) != ref.Canon(v) {
-					what := "removed"
-					if have {
-						what = "altered"
+				r := gs.Step(fromCoreState(s.From), func() interface{} {
+					if s.Consumed != nil {
+						return m
 					}
-					c.Violate("permanent:"+what, "stride %d from %s to %s: permanent binding %q was %s (node %s)\nspec: %s",
-						i, stateCanon(s.From), stateCanon(s.To), k, what, nodeDesc(gs, s.From.NodeName), specJSON(gs))
-					return
+					return nil
+				}())
+				if r.Kind == ref.Unspecified && r.Class == "action-returned-null" {
+					c.Count("skipped_null_return")
+					// nothing is promised for this stride: start over from what is there now
+					for k := range perm {
+						delete(perm, k)
+					}
+					for k, v := range s.To.Bs {
+						if strings.HasSuffix(k, "!") {
+							perm[k] = ref.Canon(v)
+						}
+					}
+					continue
 				}
+				if r.ActionFailed {
+					c.Count("after_failed_action")
+				}
+				if r.ActionCompleted {
+					c.Count("after_completed_action")
+				}
+				checked++
+				// perm holds deep snapshots (canonical JSON) taken when each permanent
+				// binding first appeared: From shares nested values with To, so an
+				// in-place change would not show in a From/To comparison
+				for k, want := range perm {
+					got, have := s.To.Bs[k]
+					if !have || ref.Canon(got) != want {
+						what := "removed"
+						if have {
+							what = "altered"
+						}
+						c.Violate("permanent:"+what, "stride %d from %s to %s: permanent binding %q (value %s when it appeared) was %s (node %s; %d machines share the spec)\nspec: %s",
+							i, stateCanon(s.From), stateCanon(s.To), k, want, what, nodeDesc(gs, s.From.NodeName), nmach, specJSON(gs))
+						return
+					}
+				}
+				for k, v := range s.To.Bs {
+					if _, seen := perm[k]; !seen && strings.HasSuffix(k, "!") {
+						perm[k] = ref.Canon(v)
+					}
+				}
+				shape += r.Kind[:1]
 			}
-			shape += r.Kind[:1]
-		}
-		if to := w.To(); to != nil {
-			st = to
+			if to := w.To(); to != nil {
+				mc.st = to
+			}
 		}
 	}
+	st := machines[0].st
 	c.Add("strides_checked", checked)
 	c.MixHash(shape + stateCanon(st))
 	c.Path = specJSON(gs) + shape + fmt.Sprint(len(hist))
